@@ -187,6 +187,9 @@ impl Mode {
 	}
 }
 
+/// stored images that hold an empty (reclaimed) log file next to a pending one
+pub static EMPTY_LOG_IMAGES: std::sync::atomic::AtomicU64 = std::sync::atomic::AtomicU64::new(0);
+
 struct Stored {
 	scr: Scratch,
 	cols: Vec<ColumnOptions>,
@@ -222,8 +225,14 @@ fn build_small(rng: &mut Rng, cols: &[ColumnOptions], logs_pending: bool) -> Res
 		let live = scr.sub("live");
 		o.path = live.clone();
 		let db = Handle::new(Db::open_or_create(&o).map_err(|e| format!("create: {}", e))?);
-		let tx = content.gen_tx(rng, 6, &all);
-		db.commit_changes(tx).map_err(|e| format!("commit: {}", e))?;
+		// two log files are written, applied and reclaimed (both end up EMPTY in the log pool),
+		// then one of them is used again: the image holds one pending log and one empty log file
+		for _ in 0..2 {
+			let tx = content.gen_tx(rng, 6, &all);
+			db.commit_changes(tx).map_err(|e| format!("commit: {}", e))?;
+			db.process_commits().map_err(|e| format!("process_commits: {}", e))?;
+			db.flush_logs().map_err(|e| format!("flush_logs: {}", e))?;
+		}
 		dbutil::drain(&db).map_err(|e| format!("drain: {}", e))?;
 		let tx = content.gen_tx(rng, 6, &all);
 		db.commit_changes(tx).map_err(|e| format!("commit: {}", e))?;
@@ -234,6 +243,9 @@ fn build_small(rng: &mut Rng, cols: &[ColumnOptions], logs_pending: bool) -> Res
 		let _ = std::fs::remove_dir_all(&live);
 	}
 	let base = hashes(&dir);
+	if logs_pending && dbutil::list_files(&dir).iter().any(|(n, l)| n.starts_with("log") && *l == 0) {
+		EMPTY_LOG_IMAGES.fetch_add(1, std::sync::atomic::Ordering::Relaxed);
+	}
 	Ok(Stored { scr, cols: cols.to_vec(), logs_pending, base })
 }
 
@@ -315,6 +327,7 @@ fn mismatch_stored(ctx: &Ctx, rep: &mut Report, v: usize, seed: u64, logs_pendin
 	};
 	if logs_pending {
 		rep.count("mismatch_stored_with_pending_logs", 1);
+		rep.count("mismatch_stored_with_empty_log_file", EMPTY_LOG_IMAGES.swap(0, std::sync::atomic::Ordering::Relaxed).min(1));
 	}
 	rep.count("mismatch_stored_dbs", 1);
 	// positive control: the stored options themselves open (on a copy, to keep the image)
@@ -1008,8 +1021,8 @@ pub fn spec() -> pv::Spec {
 		 every position of every 1..4-column layout and at the first / middle / last positions of 10, 11, 12, 13, 21, 100, 101 and 255-column layouts (remaining columns random combinations), written with \
 		 Options::write_metadata and read with load_metadata: columns, salt and version must come back equal and re-writing \
 		 must give the same file (fully enumerated: counter roundtrip_cases). (b) mismatch: for every valid stored \
-		 column configuration (160) a small database of 1-3 columns (every fifth: 10-13 columns) is created (one in four as a byte image holding unreplayed \
-		 logs) and opened with every other valid configuration of that column (all 160 x 159 ordered pairs, fully enumerated: \
+		 column configuration (160) a small database of 1-3 columns (every fifth: 10-13 columns) is created (one in four as a byte image holding an unreplayed log \
+		 and an empty, reclaimed log file) and opened with every other valid configuration of that column (all 160 x 159 ordered pairs, fully enumerated: \
 		 counter mismatch_pairs), with one more / one fewer column, with two differing columns swapped and with several columns changed, through Db::open, \
 		 open_or_create and open_read_only: each attempt must return Err and leave the (name, length, content hash) of every \
 		 file unchanged (only the appearance of an empty lock file is ignored); plus opening missing paths and an empty \
@@ -1030,6 +1043,7 @@ pub fn spec() -> pv::Spec {
 	.require("mismatch_pairs", 160 * 159)
 	.require("mismatch_control_open_ok", 160)
 	.require("mismatch_stored_with_pending_logs", 10)
+	.require("mismatch_stored_with_empty_log_file", 5)
 	.require("mismatch_count_changes", 320)
 	.require("missing_db_opens", 6)
 	.require("admin_add_column", 10)
